@@ -25,6 +25,10 @@
 //     whole-op crash images of its last call. Counters report how many histories remove a log file while a
 //     height is live, and how many do so right after pruning a multi-file height that shared a file with a
 //     live one (vacuity guard: both must be > 0).
+//  6. SIZE boundaries of one flush (sizes_test.go): batches of 1..4240 (quick) / ..16385 (thorough) records -
+//     counts around powers of two and around multiples of the 32 KiB log block - flushed by Flush or Close, with
+//     whole-op crash images and tail cuts of the appended log region at every block / write boundary, at a
+//     stride, and at every byte of the tail.
 //
 // Oracle (the property statement): after recovery the log holds, for every unpruned height, exactly
 // the entries of the batches whose Flush returned nil, in order — or that plus the complete batch in
@@ -935,6 +939,14 @@ func (c *checker) execute(hist []sym, base baseKind, fault int, fmode crashfs.Fa
 			for j := 0; j < bulkEntries && !r.broken; j++ {
 				r.doAppendPos(i, 1000*(i+1)+j, r.hoff+1)
 			}
+		case 'B':
+			// sized batch (sizes pass): s.h entries at the second alphabet height in the pending batch. The rows
+			// of the appends issue no FS op and are never crash-checked, so their model contents are not rendered.
+			r.quiet = true
+			for j := 0; j < s.h && !r.broken; j++ {
+				r.doAppendPos(i, 1000*(i+1)+j, r.hoff+2)
+			}
+			r.quiet = false
 		case 'p':
 			r.doPrune(i, r.hoff+uint64(s.h))
 		case 'f':
